@@ -37,6 +37,7 @@ type scenario struct {
 	txs     types.Transactions // T's transactions
 	poolTx  *types.Transaction // an unrelated pending transaction
 	parent  *types.Block
+	x       *types.Transaction // the transfer ancestor A1 carries
 	rebuilt map[string]*types.Block // corrupted variants re-executed by the real assembler (roots consistent with the corrupted header)
 }
 
@@ -49,6 +50,7 @@ type adapter struct {
 	seq     int
 	dir     string
 	addrs   []common.Address
+	x       *types.Transaction
 }
 
 func (a *adapter) transfer(to common.Address, amount int64, nonce int64) *types.Transaction {
@@ -60,6 +62,82 @@ func (a *adapter) transfer(to common.Address, amount int64, nonce int64) *types.
 	}
 	return tx
 }
+
+// mkTx is a founder transfer with every body field chosen by the caller.
+func (a *adapter) mkTx(to common.Address, amount int64, exp uint64, chainID uint16, toName, msg string) *types.Transaction {
+	tx := types.NewTransaction(a.w.Founder, to, big.NewInt(amount), 100000, big.NewInt(1000000000), []byte{}, params.OrdinaryTx, chainID, exp, toName, msg)
+	tx, err := types.DefaultSigner{}.SignTx(tx, a.w.FounderKey)
+	if err != nil {
+		panic(err)
+	}
+	return tx
+}
+
+func (a *adapter) mkBox(exp uint64, msg string, subs ...*types.Transaction) *types.Transaction {
+	data, err := types.MarshalBoxData(subs)
+	if err != nil {
+		panic(err)
+	}
+	tx := types.NoReceiverTransaction(a.w.Founder, big.NewInt(0), 300000, big.NewInt(1000000000), data, params.BoxTx, node.ChainID, exp, "", msg)
+	tx, err = types.DefaultSigner{}.SignTx(tx, a.w.FounderKey)
+	if err != nil {
+		panic(err)
+	}
+	return tx
+}
+
+// zTx builds the third transaction of class z for a block of time bt (spec/BlockAccept.tla, family "tx").
+func (a *adapter) zTx(z string, sc *scenario, bt uint64, to common.Address) *types.Transaction {
+	L := uint64(params.MaxTxLifeTime)
+	ok := bt + 1000
+	tag := fmt.Sprintf("%s-%d", z, sc.T.Height()*10+uint32(sc.right))
+	switch z {
+	case "z_ok":
+		return a.mkTx(to, 11, ok, node.ChainID, "", tag)
+	case "z_exp_now":
+		return a.mkTx(to, 12, bt, node.ChainID, "", tag)
+	case "z_exp_max":
+		return a.mkTx(to, 13, bt+L, node.ChainID, "", tag)
+	case "z_box_ok":
+		return a.mkBox(ok, tag, a.mkTx(to, 14, ok, node.ChainID, "", tag+"s1"), a.mkTx(to, 15, ok+5, node.ChainID, "", tag+"s2"))
+	case "z_box_sub_exp_max":
+		return a.mkBox(bt+10, tag, a.mkTx(to, 16, bt+L, node.ChainID, "", tag+"s1"))
+	case "z_expired":
+		return a.mkTx(to, 17, bt-1, node.ChainID, "", tag)
+	case "z_too_far":
+		return a.mkTx(to, 18, bt+L+1, node.ChainID, "", tag)
+	case "z_chain":
+		return a.mkTx(to, 19, ok, node.ChainID+1, "", tag)
+	case "z_toname_long":
+		return a.mkTx(to, 20, ok, node.ChainID, strings.Repeat("n", types.MaxTxToNameLength+1), tag)
+	case "z_toname_chars":
+		return a.mkTx(to, 21, ok, node.ChainID, "bad name!", tag)
+	case "z_message_long":
+		return a.mkTx(to, 22, ok, node.ChainID, "", strings.Repeat("m", types.MaxTxMessageLength+1))
+	case "z_box_sub_expired":
+		return a.mkBox(ok, tag, a.mkTx(to, 23, bt-1, node.ChainID, "", tag+"s1"))
+	case "z_box_sub_too_far":
+		return a.mkBox(bt+L-100, tag, a.mkTx(to, 24, bt+2*L-200, node.ChainID, "", tag+"s1"))
+	case "z_box_sub_chain":
+		return a.mkBox(ok, tag, a.mkTx(to, 25, ok, node.ChainID+1, "", tag+"s1"))
+	case "z_box_in_box":
+		return a.mkBox(ok, tag, a.mkBox(ok, tag+"inner", a.mkTx(to, 26, ok, node.ChainID, "", tag+"s1")))
+	case "z_replay_anc":
+		return sc.x
+	case "z_box_sub_replay_anc":
+		return a.mkBox(ok, tag, sc.x)
+	case "z_box_sub_replay_T":
+		return a.mkBox(ok, tag, sc.txs[0])
+	case "z_box_sub_before_box":
+		return a.mkBox(bt+500, tag, a.mkTx(to, 27, bt+100, node.ChainID, "", tag+"s1"))
+	}
+	engine.Failf("unknown z class %s", z)
+	return nil
+}
+
+var zClasses = []string{"z_ok", "z_exp_now", "z_exp_max", "z_box_ok", "z_box_sub_exp_max", "z_expired", "z_too_far", "z_chain", "z_toname_long",
+	"z_toname_chars", "z_message_long", "z_box_sub_expired", "z_box_sub_too_far", "z_box_sub_chain", "z_box_in_box", "z_replay_anc",
+	"z_box_sub_replay_anc", "z_box_sub_replay_T", "z_box_sub_before_box"}
 
 func (a *adapter) init() {
 	a.dir = os.Getenv("VERIF_SCRATCH_DIR")
@@ -80,6 +158,7 @@ func (a *adapter) init() {
 	}
 	g := a.builder.Genesis
 	a.scens = map[int]*scenario{}
+	a.x = a.transfer(r2, 4242, 999)
 	mk := func(id int, pre []*types.Block, stable *types.Block, parent *types.Block, right int, grand *types.Block) {
 		txs := types.Transactions{a.transfer(r1, 3000000+int64(id), int64(id*10+1)), a.transfer(r2, 5000000+int64(id), int64(id*10+2))}
 		T, inv, err := a.builder.Build(parent, right, 0, txs, "T")
@@ -106,12 +185,23 @@ func (a *adapter) init() {
 			engine.Failf("rebuild time_future: %v", err)
 		}
 		sc.rebuilt["time_future_rebuilt"] = fb
+		// family "tx": T with a third transaction Z, executed and sealed by the real assembler
+		sc.x = a.x
+		for _, z := range zClasses {
+			zt := a.zTx(z, sc, uint64(T.Time()), r2)
+			all := append(append(types.Transactions{}, txs...), zt)
+			b, inv, err := a.builder.BuildWith(parent, right, 0, all, "T", nil, false)
+			if err != nil || len(inv) != 0 || len(b.Txs) != 3 {
+				engine.Failf("scenario %d: the assembler does not package class %s: err=%v discarded=%d", id, z, err, len(inv))
+			}
+			sc.rebuilt[z] = b
+		}
 		a.scens[id] = sc
 	}
 	// 1: T on genesis, mined by rank 0
 	mk(1, nil, nil, g, 0, nil)
 	// chain A: A1 (rank 0) <- A2 (rank 1)
-	a1 := must(a.builder.Build(g, 0, 0, nil, "A1"))
+	a1 := must(a.builder.Build(g, 0, 0, types.Transactions{a.x}, "A1"))
 	a2 := must(a.builder.Build(a1, 1, 0, nil, "A2"))
 	// 2: node holds A1 (stable) and A2 (head); T at height 3 by rank 2
 	mk(2, []*types.Block{a1, a2}, a1, a2, 2, a1)
@@ -149,7 +239,7 @@ func (a *adapter) Reset(init map[string]tla.Value) (engine.Fields, error) {
 	}
 	a.nut.Pool.AddTx(a.sc.poolTx)
 	a.nut.Pool.AddTx(a.sc.txs[0])
-	return engine.Fields{"scen": id}, nil
+	return engine.Fields{"scen": id, "fam": init["fam"].S()}, nil
 }
 
 // digest is the node's observable state, hashed.
